@@ -12,6 +12,7 @@ THEOREMS = THEOREMS + vcore.theorems_in("SodiumModel/Properties/C04Poly.lean", [
 IMPORTS = ["SodiumModel.Properties.C04"] if THEOREMS else ["SodiumModel.Model.Hash"]
 THEOREMS = THEOREMS + vcore.theorems_in("SodiumModel/Properties/C04Compress.lean", ['sha256_Krnd_eq_spec', 'sha256_RNDr_eq_spec_round', 'sha256_MSCH_eq_spec_schedule', 'sha256_transform_eq_spec', 'sha256_compress_fn_eq_spec', 'sha512_Krnd_eq_spec', 'sha512_RNDr_eq_spec_round', 'sha512_MSCH_eq_spec_schedule', 'sha512_transform_eq_spec', 'sha512_compress_fn_eq_spec', 'blake2b_IV_eq_spec', 'blake2b_sigma_eq_spec', 'blake2b_G_eq_spec', 'blake2b_ROUND_eq_spec', 'blake2b_compress_ref_eq_spec', 'blake2b_compress_fn_eq_spec', 'blake2b_increment_counter_eq', 'blake2b_increment_counter_ti_eq', 'blake2b_set_lastblock_eq', 'siphash_SIPROUND_eq_spec', 'siphash_tail_eq_spec', 'siphash24_eq_spec', 'siphashx24_eq_spec', 'siphash24_fn_eq_spec', 'siphashx24_fn_eq_spec', 'chunkLaw_sha256_ref', 'chunkLaw_sha512_ref', 'sha256_ref_chunks', 'sha512_ref_chunks', 'blake2b_ref_chunks', 'generichash_ref_spec', 'kdf_blake2b_ref_spec', 'hmacsha256_ref_chunks', 'hmacsha512_ref_chunks', 'hkdf_sha256_ref_expand', 'hkdf_sha512_ref_expand'], "Sodium.C04Compress")
 IMPORTS = IMPORTS + ["SodiumModel.Properties.C04Poly", "SodiumModel.Properties.C04Compress"]
+FINGERPRINTS = "C04"     # Tie B: pinned source text of the hand-transcribed limb code (tools/fingerprint.py)
 RULE = ("every message length 0..1100 one-shot; chunk lists: all 2-way splits at block boundaries +-1, 3-way splits, random splits with "
         "empty chunks, byte-at-a-time; BLAKE2b every key length 0..64 and output length 1..64 (+ out of range), salt/personal; HMAC keys "
         "0..200 bytes; HKDF every output length around multiples of the hash length and the 255-block limit; Poly1305 adversarial inputs "
